@@ -82,6 +82,11 @@ type fragSpec struct {
 	EarlyReturn string   // text of the return statements inside the fragment that mean "the fragment ends here"
 	Case        string   // instead of First/Last: the whole body of the case clause with this label text
 	ErrLast     bool     // the fragment can fail: a `return .., err` inside (err not nil) is its error result
+	Locals      []string // "name type": variables the fragment itself declares that may be named in Results
+	Abstract    []string // statements `v.. := call` (full first-line text) that are NOT translated: the variables they
+	// define are parameters of the fragment, standing for the values they have after the statement
+	Field      string // instead of First/Last: the fragment is the EXPRESSION that initialises the field with this
+	FieldType  string // name in the one composite literal of the function that sets it; its Go type is FieldType
 }
 
 var specs = []spec{
@@ -133,6 +138,66 @@ var specs = []spec{
 	// C18: a parameter struct whose Validate is integer range checks only
 	{File: "models/quantizer.go", Func: "Validate", Recv: "ProductQuantizerParameters", Module: "Validate", Ext: true,
 		Structs: []structSpec{{File: "models/quantizer.go", Name: "ProductQuantizerParameters"}}},
+	// third round (notes/T1ext.md, section 8): the FORMULAS.  float32 / float64 are the symbolic Go.FExpr (FloatSym): one
+	// constructor per Go operation, operands in source order, every conversion written; IEEE rounding is not interpreted
+	distSym("dotProductDistance", true), distSym("cosineDistance", true), distSym("haversineDistance", false),
+	{File: "distance/puredist.go", Func: "squaredEuclideanDistancePureGo", Module: "Distance", Ext: true, FloatSym: true},
+	{File: "distance/puredist.go", Func: "dotProductPureGo", Module: "Distance", Ext: true, FloatSym: true},
+	// the hybrid score of the three leaf searches and the weight default (nil -> 1)
+	{File: "shard/index/flat/flat.go", Func: "Search", Recv: "IndexFlat", Module: "Hybrid", Ext: true, FloatSym: true, Name: "flat_weight",
+		Structs: []structSpec{{File: "models/search.go", Name: "SearchVectorFlatOptions", Only: []string{"Weight"}}},
+		Frag: &fragSpec{First: "var weight float32 = 1", Last: "if options.Weight != nil {", Params: []string{"options models.SearchVectorFlatOptions"},
+			Locals: []string{"weight float32"}, Results: []string{"weight"}}},
+	{File: "shard/index/flat/flat.go", Func: "Search", Recv: "IndexFlat", Module: "Hybrid", Ext: true, FloatSym: true, Name: "flat_hybrid",
+		Frag: &fragSpec{Field: "HybridScore", FieldType: "float32", Params: []string{"weight float32", "dist float32"}}},
+	{File: "shard/index/vamana/vamana.go", Func: "Search", Recv: "IndexVamana", Module: "Hybrid", Ext: true, FloatSym: true, Name: "vamana_weight",
+		Structs: []structSpec{{File: "models/search.go", Name: "SearchVectorVamanaOptions", Only: []string{"Weight"}}},
+		Frag: &fragSpec{First: "weight := float32(1)", Last: "if query.Weight != nil {", Params: []string{"query models.SearchVectorVamanaOptions"},
+			Locals: []string{"weight float32"}, Results: []string{"weight"}}},
+	{File: "shard/index/vamana/vamana.go", Func: "Search", Recv: "IndexVamana", Module: "Hybrid", Ext: true, FloatSym: true, Name: "vamana_hybrid",
+		Structs: []structSpec{{File: "shard/index/vamana/distset.go", Name: "DistSetElem", Only: []string{"Distance"}}},
+		Frag: &fragSpec{Field: "HybridScore", FieldType: "float32", Params: []string{"elem DistSetElem", "weight float32"}}},
+	{File: "shard/index/text/text.go", Func: "Search", Recv: "indexText", Module: "Hybrid", Ext: true, FloatSym: true, Name: "text_weight",
+		Structs: []structSpec{{File: "models/search.go", Name: "SearchTextOptions", Only: []string{"Weight"}}},
+		Frag: &fragSpec{First: "weight := float32(1)", Last: "if options.Weight != nil {", Params: []string{"options models.SearchTextOptions"},
+			Locals: []string{"weight float32"}, Results: []string{"weight"}}},
+	{File: "shard/index/text/text.go", Func: "Search", Recv: "indexText", Module: "Hybrid", Ext: true, FloatSym: true, Name: "text_hybrid",
+		Frag: &fragSpec{Field: "HybridScore", FieldType: "float32", Params: []string{"score float32", "weight float32"}}},
+	// the tf-idf score of one document: start value, the statements of the loop over the query terms (the loop itself ranges
+	// over a Go map: its order is not defined, the theorems quantify over it)
+	textScoreLocal("Search_score0", &fragSpec{First: "score := float32(0)", Last: "score := float32(0)", Locals: []string{"score float32"}, Results: []string{"score"}}),
+	textScoreLocal("Search_tf", &fragSpec{First: "tf := float32(freq)", Last: "tf := float32(freq)", Params: []string{"freq int", "docItem docCacheItem"},
+		Locals: []string{"tf float32"}, Results: []string{"tf"}}),
+	textScore("Search_idf", &fragSpec{First: "idf := math.Log10(", Last: "idf := math.Log10(", Params: []string{"index *indexText", "termSetItem *setCacheItem"},
+		Locals: []string{"idf float64"}, Results: []string{"idf"}}),
+	textScore("Search_scoreStep", &fragSpec{First: "freq := 0", Last: "score += tf * float32(idf)",
+		Params:   []string{"index *indexText", "docItem docCacheItem", "term string", "termSetItem *setCacheItem", "score float32"},
+		Abstract: []string{"termSetItem, _ := index.setCache.Get(term)"}, Results: []string{"score"}}),
+}
+
+// the float metrics of distance.go; the dot product implementation (a package variable: AVX kernel or pure Go loop) is abstract
+func distSym(fn string, usesDot bool) spec {
+	var prims []string
+	if usesDot {
+		prims = []string{"dotProductImpl=func(x, y []float32) float32"}
+	}
+	return spec{File: "distance/distance.go", Func: fn, Module: "Distance", Ext: true, FloatSym: true, Prims: prims,
+		Consts: []constSpec{{File: "distance/distance.go", Name: "degToRad", As: "degToRad"}, {File: "distance/distance.go", Name: "earthRadius", As: "earthRadius"}}}
+}
+
+// fragments of text.indexText.Search that touch neither the index nor a term's posting set
+func textScoreLocal(name string, fr *fragSpec) spec {
+	return spec{File: "shard/index/text/text.go", Func: "Search", Recv: "indexText", Module: "TextScore", Ext: true, FloatSym: true, Name: name,
+		Structs: []structSpec{{File: "shard/index/text/text.go", Name: "Term"}, {File: "shard/index/text/text.go", Name: "docCacheItem"}}, Frag: fr}
+}
+
+// fragments of text.indexText.Search: the roaring bitmap of a term is opaque (only its cardinality is read)
+func textScore(name string, fr *fragSpec) spec {
+	return spec{File: "shard/index/text/text.go", Func: "Search", Recv: "indexText", Module: "TextScore", Ext: true, FloatSym: true, Name: name,
+		Opaque: []string{"*roaring64.Bitmap=Bitmap"}, Methods: []string{"Bitmap.GetCardinality=func() uint64"},
+		Structs: []structSpec{{File: "shard/index/text/text.go", Name: "Term"}, {File: "shard/index/text/text.go", Name: "docCacheItem"},
+			{File: "shard/index/text/text.go", Name: "indexText", Only: []string{"numDocs"}}, {File: "shard/index/text/text.go", Name: "setCacheItem", Only: []string{"set"}}},
+		Frag: fr}
 }
 
 // the body of the ForEach callback of flat.IndexFlat.Search after the filter test: the bounded insertion of
